@@ -561,20 +561,26 @@ class CallMixin:
     def call_value(self, st: St, fv: SV, args: Args, node=None) -> List[Out]:
         """Callee is a symbolic value: enumerate the known callables it may equal (model-guided), the remainder is
         a user call."""
-        outs = []
         t = fv.term
         cur = st
-        tried = 0
-        while cur is not None and tried < 12:
+        found = []
+        LIMIT = 8
+        while cur is not None and len(found) <= LIMIT:
             cand = self.identify_callable(cur, t)
             if cand is None:
                 break
             cond, pv = cand
-            tried += 1
             yes, no = self.fork(cur, cond)
             if yes is not None:
-                outs.extend(self.call(yes, pv, args, node))
+                found.append((yes, pv))
             cur = no
+        if len(found) > LIMIT:
+            # the callee is (nearly) unconstrained: it is unknown code
+            self.note('call of a value that may be any of many known callables is treated as a call into unknown code')
+            return self.user_call(st, fv, args, node)
+        outs = []
+        for yes, pv in found:
+            outs.extend(self.call(yes, pv, args, node))
         if cur is not None:
             outs.extend(self.user_call(cur, fv, args, node))
         return outs
